@@ -22,6 +22,30 @@ Check (C07_exit_sites_covered :
   forall i, (i < length ConnExits.conn_exits)%nat ->
   handler_site (nth i ConnExits.conn_exits no_site) = true ->
   exists t e o, gone t = None /\ gone (fst (cstep t e)) = Some (i, o)).
+Check (C07_ws_exits_match :
+  ws_model_exits = ConnExits.ws_exits /\ ConnExits.ws_exits_complete = true).
+Check (C07_quic_exits_match :
+  quic_model_exits = ConnExits.quic_exits /\ ConnExits.quic_exits_complete = true).
+Check (C07_ws_source_exits_dominated :
+  forallb reported_site ConnExits.ws_exits = true).
+Check (C07_quic_source_exits_dominated :
+  forallb reported_site ConnExits.quic_exits = true).
+Check (C07_ws_exit_sites_sound :
+  forall t e, gone t = None ->
+  match ws_site t e with
+  | Some i => gone (fst (cstep t e)) <> None /\ site_ok ConnExits.ws_exits t e i
+  | None => gone (fst (cstep t e)) = None
+  end).
+Check (C07_quic_exit_sites_sound :
+  forall t e, gone t = None ->
+  match quic_site t e with
+  | Some i => gone (fst (cstep t e)) <> None /\ site_ok ConnExits.quic_exits t e i
+  | None => gone (fst (cstep t e)) = None
+  end).
+Check (C07_ws_exit_sites_covered :
+  forall i, (i < length ConnExits.ws_exits)%nat -> exists t e, gone t = None /\ ws_site t e = Some i).
+Check (C07_quic_exit_sites_covered :
+  forall i, (i < length ConnExits.quic_exits)%nat -> exists t e, gone t = None /\ quic_site t e = Some i).
 Check (C07_exit_reports :
   forall t es, gone t = None -> gone (fst (crun t es)) <> None ->
   let t' := fst (crun t es) in
